@@ -327,3 +327,61 @@ def c_enum_family(c, idx):
             miss = [int(e) for e in sub if not any(lo <= int(e) <= hi for lo, hi in dom)]
             c.check("C14: every enumerator admitted by the `inside` constraint lies in the inferred domain", not miss,
                     info="values %r inside %r domain %r" % (vals, [int(e) for e in sub], dom))
+
+
+# ---- C02: constant folding of if-conditions agrees with the solver's meaning ----------------------------------------------
+def fold_cases(tier, seed):
+    ts = [(4, False), (4, True), (8, False), (8, True), (32, True)] if tier != "thorough" else \
+        [(w, s) for w in (1, 4, 8, 16, 32, 33, 64) for s in (False, True)]
+    out = []
+    for op in ("Lt", "Le", "Gt", "Ge", "Eq", "Ne"):
+        for (w, s) in ts:
+            for (w2, s2) in ((w, s), (w, not s)):
+                for shape in ("f_f", "f_lit", "fplusf_f", "fpluslit_f"):
+                    out.append((op, w, s, w2, s2, shape))
+    return out
+
+
+@contract("x_expr_evaluator.fold", ["C02"],
+          ["vsc.visitors.x_expr_evaluator.XExprEvaluator.eval", "vsc.visitors.x_expr_evaluator.XExprEvaluator.visit_expr_bin",
+           "vsc.visitors.x_expr_evaluator.XExprEvaluator.visit_scalar_field", "vsc.visitors.x_expr_evaluator.XExprEvaluator.visit_expr_literal",
+           "vsc.visitors.array_constraint_builder.ArrayConstraintBuilder.visit_constraint_if_else"],
+          fold_cases, max_paths=5000,
+          note="folding of an if-condition over non-random operands: 6 comparison operators x operand types x shapes field/field, "
+               "field/literal, (field+field)/field, (field+literal)/field; all in-type values")
+def c_fold(c, op, w, s, w2, s2, shape):
+    from vsc.model.field_scalar_model import FieldScalarModel
+    from vsc.model.expr_bin_model import ExprBinModel
+    from vsc.model.expr_fieldref_model import ExprFieldRefModel
+    from vsc.model.expr_literal_model import ExprLiteralModel
+    from vsc.model.bin_expr_type import BinExprType
+    from vsc.visitors.x_expr_evaluator import XExprEvaluator
+    n1 = FieldScalarModel("n1", w, s, False)
+    n2 = FieldScalarModel("n2", w2, s2, False)
+    n3 = FieldScalarModel("n3", w, s, False)
+    for f in (n1, n2, n3):
+        f.is_used_rand = False
+        v = c.fresh_int("v_" + f.name)
+        c.assume(in_type(v, f.width, f.is_signed))
+        f.val.v = v
+    k = c.fresh_int("k", -(1 << 31), (1 << 31) - 1)
+    N1, N2, N3, L = ExprFieldRefModel(n1), ExprFieldRefModel(n2), ExprFieldRefModel(n3), ExprLiteralModel(k, True, 32)
+    F1, F2, F3, LK = ("field", n1.val.v, w, s), ("field", n2.val.v, w2, s2), ("field", n3.val.v, w, s), ("lit", k, 32, True)
+    if shape == "f_f":
+        e, truth = ExprBinModel(N1, BinExprType[op], N2), cmp_truth(op, F1, F2)
+    elif shape == "f_lit":
+        e, truth = ExprBinModel(N1, BinExprType[op], L), cmp_truth(op, F1, LK)
+    elif shape == "fplusf_f":
+        e = ExprBinModel(ExprBinModel(N1, BinExprType.Add, N3), BinExprType[op], N2)
+        W = max(w, w2)
+        sumv = wrap(lift(n1.val.v) + n3.val.v, W, s) if s else upat(upat(n1.val.v, w) + upat(n3.val.v, w), W)
+        truth = cmp_truth(op, ("lit", sumv, W, s), F2)
+    else:
+        e = ExprBinModel(ExprBinModel(N1, BinExprType.Add, L), BinExprType[op], N2)
+        W = max(w, 32, w2)
+        sumv = wrap(lift(n1.val.v) + k, W, s) if s else upat(upat(n1.val.v, w) + upat(k, W), W)
+        truth = cmp_truth(op, ("lit", sumv, W, s), F2)
+    is_x, val = XExprEvaluator().eval(e)
+    c.prove("a condition over non-random operands is recognised as constant", is_x is False)
+    got = bool(val)
+    c.prove("the folded truth value agrees with the solver's meaning of the condition (R-EXPR)", Iff(got, truth))
